@@ -92,4 +92,14 @@ MUTANTS = [
      "        for validator in self.validators:\n            result = validator.validate_pre_sds_if_applicable(environment)",
      "        for validator in self.validators:\n            result = validator.validate_post_sds_if_applicable(environment)",
      'AndSdvValidator.validate_pre_sds_if_applicable : monitor['),
+    ('c02-act-output-files-not-forwarded', 'C02', 'exactly_lib/processing/standalone/processor.py',
+     "            result_reporter.execute_atc_and_skip_assertions()\n        )",
+     "            None\n        )",
+     'Processor._executor : ensures[keep-flag-and-act-output-files-reach-the-executor]'),
+    ('c02-invalid-usage-exit-code', 'C02', 'exactly_lib/cli/definitions/exit_codes.py',
+     "EXIT_INVALID_USAGE = 64", "EXIT_INVALID_USAGE = 65",
+     'EXIT_INVALID_USAGE == 64'),
+    ('c02-status-instruction-case', 'C02', 'exactly_lib/impls/instructions/configuration/test_case_status.py',
+     "        argument = status_element_arg.upper()", "        argument = status_element_arg",
+     'status instruction: documented spellings'),
 ]
